@@ -193,6 +193,21 @@ def install(handler, g):
             bad.append(f"gradient at x differs from the derivative by {float((gx - gw).abs().max()):.3g}")
         if not torch.allclose(y2, y, rtol=1e-12, atol=1e-12):
             bad.append("residual_apply differs from split / f / add")
+        # every tau > 0 (incl. exactly 1, int or float) x every shape (single-element tensors, a branch
+        # output that broadcasts against the skip)
+        for tau2 in (tau, 1.0, 1, 2):
+            for shp, fb, label in (((5,), f, "vector"), ((1,), f, "single element"), ((), f, "0-dim"), ((3, 4), lambda t: torch.tanh(t).mean(-1, keepdim=True), "branch output broadcasts against the skip")):
+                xs = torch.randn(shp, dtype=torch.float64, requires_grad=True)
+                r_, s_ = U.residual_split(xs, tau=tau2)
+                ys = U.residual_add(fb(r_), s_, tau=tau2)
+                ws = (xs + tau2 * fb(xs)) / math.sqrt(1 + tau2 * tau2)
+                gs = torch.randn(ws.shape, dtype=torch.float64)
+                (g1,) = torch.autograd.grad(ys, xs, gs.expand_as(ys) if ys.shape != gs.shape else gs, retain_graph=True)
+                (g2,) = torch.autograd.grad(ws, xs, gs)
+                if ys.shape != ws.shape or not torch.allclose(ys, ws.detach(), rtol=1e-12, atol=1e-12):
+                    bad.append(f"[tau={tau2!r}, {label}] value differs from (x + tau f(x))/sqrt(1+tau^2) by {float((ys - ws).abs().max()) if ys.shape == ws.shape else 'shape'}")
+                elif not torch.allclose(g1, g2, rtol=1e-10, atol=1e-12):
+                    bad.append(f"[tau={tau2!r}, {label}] gradient at x differs from the derivative by {float((g1 - g2).abs().max()):.3g}")
         # "for ANY branch function": an in-place branch, with and without autograd recording
         for mode in ("grad", "no_grad", "input_without_grad"):
             x2 = torch.randn(6, dtype=torch.float64, requires_grad=(mode == "grad"))
